@@ -78,8 +78,10 @@ def gen_flush(rnd, i):
     big = rnd.random() < 0.8
     ops = []
     for _ in range(rnd.randint(1, 3)):
-        if rnd.random() < 0.15:
+        if rnd.random() < 0.12:
             ops.append(['WriteV', rnd.choice([3, 31, 32, 33, 40, 70]), rnd.choice([4097, 5000])])
+        elif rnd.random() < 0.15:
+            ops.append(['AppendV', rnd.choice([2, 31, 32, 33, 48, 70]), rnd.choice([10, 100])])
         else:
             ops.append([rnd.choice(['Write', 'WriteT', 'WriteT']), rnd.choice([200000, 400000, 300000]) if big and rnd.random() < 0.7 else rnd.choice([1, 100, 5000])])
     peer = []
@@ -89,9 +91,11 @@ def gen_flush(rnd, i):
         peer.insert(rnd.randint(0, len(peer)), ['close'])
         peer = peer[:peer.index(['close']) + 1]
     actors = [{'name': 'flusher', 'ops': ops}]
-    if rnd.random() < 0.25 and not any(o[0] == 'WriteV' for o in ops):  # one writer at a time is the contract
+    if rnd.random() < 0.25 and not any(o[0] in ('WriteV', 'AppendV') for o in ops):  # one writer at a time is the contract
         actors.append({'name': 'flusher2', 'ops': [['Write', rnd.choice([1, 300000])]]})
-    if rnd.random() < 0.25:
+    # A concurrent Close is only combined with Write (which holds the flushing lock that Close waits for): the
+    # unlocked Writer methods (Malloc/WriteBinary/Append) racing closeBuffer() are outside C08 (see DESIGN, leads)
+    if rnd.random() < 0.25 and not any(o[0] in ('WriteV', 'AppendV') for o in ops):
         actors += _closers(rnd, 1, 1)
     return {'kind': rnd.choice(['client', 'fd']), 'onconnect': False, 'ondisconnect': False, 'onrequest': False, 'onprepare': True,
             'nclosecb': 1, 'handler': [], 'actors': actors, 'peer': peer, 'sndbuf': 4096}
